@@ -9,6 +9,8 @@ import Flumine.Lemmas.WorldLemmas
 import Flumine.Lemmas.Ids
 import Flumine.Lemmas.Inv
 import Flumine.Lemmas.Final
+import Flumine.Lemmas.Flight
+import Flumine.Lemmas.Strand
 import Mathlib.Tactic.Linarith
 namespace Flumine.C15
 open Flumine Flumine.World
@@ -126,5 +128,250 @@ theorem live_list_holds_incomplete_whole_run (cfg : Config) (cl : List Client) (
   by_contra hn
   have := ec_complete b oid hb (b.live oid hb hn)
   rw [hc] at this; cases this
+
+
+/-! ### the client views: a replacement order is filed under the client of the order it replaces -/
+
+section ClientViews
+open Flumine.OL Flumine.Ids Flumine.Inv Flumine.Fl
+
+/-- the client attribute of an order and the client whose views the blotter filed it under (`Blotter.__setitem__` reads
+    `order.client` once, when the order enters) -/
+def CC (w : World) (x : Nat) : Option Nat × Option Nat := ((w.order! x).client, (w.order! x).blotterClient)
+
+theorem cc_of_orders {w w' : World} (h : w'.orders = w.orders) (x : Nat) : CC w' x = CC w x := by
+  unfold CC; rw [order!_congr w w' h x]
+
+theorem cc_modifyOrder (w : World) (a : Nat) (f : Order → Order) (hf : ∀ y, y.id = a → (f y).id = a)
+    (hc : (f (w.order! a)).client = (w.order! a).client ∧ (f (w.order! a)).blotterClient = (w.order! a).blotterClient) (x : Nat) :
+    CC (w.modifyOrder a f) x = CC w x := by
+  unfold CC
+  rcases order!_modify' w a x f hf with h | ⟨e, _, h⟩
+  · rw [h]
+  · rw [h, e, hc.1, hc.2]
+
+theorem cc_orderUpdateStatus (w : World) (a : Nat) (s : Status) (ha : HasOrder w a) (x : Nat) :
+    CC (w.orderUpdateStatus a s) x = CC w x := by
+  unfold CC
+  by_cases e : x = a
+  · rw [e, orderUpdateStatus_self w a s ha]; rfl
+  · rw [orderUpdateStatus_other w x a s ha e]
+
+theorem cc_orderExecutable (w : World) (a : Nat) (ha : HasOrder w a) (x : Nat) : CC (w.orderExecutable a) x = CC w x := by
+  unfold orderExecutable
+  split
+  · exact cc_modifyOrder w a (fun o => { o with ud := {} }) (fun _ h => h) ⟨rfl, rfl⟩ x
+  · rw [cc_modifyOrder (w.orderUpdateStatus a .executable) a (fun o => { o with ud := {} }) (fun _ h => h) ⟨rfl, rfl⟩ x]
+    exact cc_orderUpdateStatus w a _ ha x
+
+theorem cc_orderExecutionComplete (w : World) (a : Nat) (ha : HasOrder w a) (x : Nat) : CC (w.orderExecutionComplete a) x = CC w x := by
+  unfold orderExecutionComplete
+  rw [cc_modifyOrder (w.orderUpdateStatus a .executionComplete) a (fun o => { o with ud := {}, completeAt := some w.clock }) (fun _ h => h) ⟨rfl, rfl⟩ x]
+  exact cc_orderUpdateStatus w a _ ha x
+
+/-- C15 (client views) `market.place_order(order, execute=False, client=c)` on an order that has not been placed: the order
+    belongs to `c` afterwards and the blotter files it under `c` -/
+theorem place_noexec_files_under_txn_client (w : World) (t : Txn) (rid : Nat) (v : Option Int) (hr : HasOrder w rid)
+    (hnb : rid ∉ (w.market! t.market).blotter) (hst : (w.order! rid).status = none) :
+    CC (w.txnPlace t rid v false false).1 rid = (some t.client, some t.client) ∧
+    ((w.txnPlace t rid v false false).1.order! rid).inBlotter = true := by
+  unfold txnPlace
+  simp only [Bool.false_and, Bool.false_eq_true, if_false]
+  have e1 : (w.modifyOrder rid (fun o => { o with client := some t.client })).order! rid = { w.order! rid with client := some t.client } :=
+    order!_modify_self w rid _ hr (fun _ h => h)
+  have hh1 := hasOrder_modify w rid rid (fun o => { o with client := some t.client }) hr (fun _ h => h)
+  have hm1 : (w.modifyOrder rid (fun o => { o with client := some t.client })).markets = w.markets := rfl
+  generalize w.modifyOrder rid (fun o => { o with client := some t.client }) = w1 at e1 hh1 hm1
+  have hmk1 : ∀ m, w1.market! m = w.market! m := Inv.market!_congr w1 w hm1
+  split
+  · rename_i hc
+    exfalso
+    rw [hmk1, e1] at hc
+    simp only [hst, Bool.or_eq_true, List.contains_iff_mem, beq_iff_eq] at hc
+    rcases hc with hc | hc
+    · exact hnb hc
+    · cases hc
+  · have e2 : (w1.modifyOrder rid (fun o => { o with publishTime := some (((w1.market! t.market).book).getD {}).pt, marketVersion := v })).order! rid =
+        { w1.order! rid with publishTime := some (((w1.market! t.market).book).getD {}).pt, marketVersion := v } :=
+      order!_modify_self w1 rid _ hh1 (fun _ h => h)
+    have hh2 := hasOrder_modify w1 rid rid (fun o => { o with publishTime := some (((w1.market! t.market).book).getD {}).pt, marketVersion := v }) hh1 (fun _ h => h)
+    generalize w1.modifyOrder rid (fun o => { o with publishTime := some (((w1.market! t.market).book).getD {}).pt, marketVersion := v }) = w2 at e2 hh2
+    unfold orderPlacing
+    have e3 := orderUpdateStatus_self w2 rid .pending hh2
+    have hh3 := hasOrder_orderUpdateStatus w2 rid rid .pending hh2
+    generalize w2.orderUpdateStatus rid .pending = w3 at e3 hh3
+    have e4 : (w3.blotterAdd t.market rid).order! rid = { w3.order! rid with inBlotter := true, blotterClient := (w3.order! rid).client } := by
+      unfold blotterAdd
+      exact order!_modify_self _ rid _ ((hasOrder_congr _ w3 rfl rid).mpr hh3) (fun _ h => h)
+    have hcl : (w3.order! rid).client = some t.client := by rw [e3, e2, e1]; rfl
+    have key : CC (w3.blotterAdd t.market rid) rid = (some t.client, some t.client) ∧ ((w3.blotterAdd t.market rid).order! rid).inBlotter = true := by
+      unfold CC; rw [e4]
+      exact ⟨by simp only [hcl], rfl⟩
+    split
+    · exact key
+    · exact key
+
+/-- the replacement order that `Trade.create_order_replacement` creates carries the client of the order it replaces and is
+    not filed anywhere yet -/
+theorem createReplacement_client (w : World) (a : Nat) (np sz : Rat) (cr : Time) (hI : Inv w) :
+    CC (w.createReplacement a np sz cr).1 (w.createReplacement a np sz cr).2 = ((w.order! a).client, none) := by
+  have hn : ¬ HasOrder w w.orders.length := not_hasOrder_len w w hI (Keeps.refl w)
+  unfold createReplacement CC
+  simp only
+  rw [order!_congr _ _ (setTrade_orders _ _)]
+  rw [order!_append_new w { w with orders := w.orders ++ [_] } _ rfl hn]
+
+
+open Flumine.Settle Flumine.Strand in
+/-- C15 (client views) the place half of a simulated replace: whatever the outcome, the only new order is the replacement; it
+    carries the client `c` of the order it replaces, and it is filed under `c` (re-placement accepted:
+    `market.place_order(replacement, execute=False, client=order.client)`) or under nobody (re-placement refused: it never
+    enters the blotter) - never under the default client or any other -/
+theorem replacement_filed_under_the_client_of_the_replaced_order (p : Package) (w : World) (o : Order) (a : Nat) (book : Book)
+    (np : Option Rat) (sc : Rat) (failed : Nat) (ha : HasOrder w a) (hI : Inv.Inv w) (c : Nat)
+    (hoc : o.client = some c) (hac : (w.order! a).client = some c) :
+    ∀ x, ¬ HasOrder w x → HasOrder (replacePlace p w o a book np sc failed).1 x →
+      CC (replacePlace p w o a book np sc failed).1 x = (some c, some c) ∨
+      CC (replacePlace p w o a book np sc failed).1 x = (some c, none) := by
+  unfold replacePlace
+  simp only
+  have s1 : SI w (w.orderExecutionComplete a).bumpBetId :=
+    (si_orderExecutionComplete w a).trans (SI.of_eq (w := w.orderExecutionComplete a) rfl)
+  have g1 : Good w (w.orderExecutionComplete a).bumpBetId := (good_orderExecutionComplete w a).trans (good_bumpBetId _)
+  have c1 : CC (w.orderExecutionComplete a).bumpBetId a = CC w a :=
+    (cc_of_orders (w := w.orderExecutionComplete a) (w' := (w.orderExecutionComplete a).bumpBetId) rfl a).trans (cc_orderExecutionComplete w a ha a)
+  generalize (w.orderExecutionComplete a).bumpBetId = w1 at s1 g1 c1
+  have hI1 : Inv.Inv w1 := g1.2 hI
+  have ha1 : HasOrder w1 a := g1.1.hasOrder a ha
+  have hac1 : (w1.order! a).client = some c := by
+    have := congrArg Prod.fst c1; unfold CC at this; simp only at this; rw [this]; exact hac
+  obtain ⟨hlen, hst2, _⟩ := createReplacement_new w1 a (np.getD 0) sc p.created hI1
+  have hids2 := createReplacement_ids w1 a (np.getD 0) sc p.created
+  have c2 := createReplacement_client w1 a (np.getD 0) sc p.created hI1
+  rw [hac1] at c2
+  have hnb : ∀ m, (w1.createReplacement a (np.getD 0) sc p.created).2 ∉ (w1.market! m).blotter := by
+    intro m hc
+    have := (hI1.blotter_hasOrder m _ hc)
+    rw [hlen] at this
+    exact Fl.not_hasOrder_len w1 w1 hI1 (Keeps.refl w1) this
+  have hne : a ≠ (w1.createReplacement a (np.getD 0) sc p.created).2 := by
+    intro e; rw [hlen] at e
+    exact Fl.not_hasOrder_len w1 w1 hI1 (Keeps.refl w1) (e ▸ ha1)
+  have hr := createReplacement_mem w1 a (np.getD 0) sc p.created
+  have hmkts : (w1.createReplacement a (np.getD 0) sc p.created).1.markets = w1.markets := by unfold createReplacement; rfl
+  have g2 := good_createReplacement w1 a (np.getD 0) sc p.created
+  rw [← hlen] at hids2
+  generalize w1.createReplacement a (np.getD 0) sc p.created = cr at hr hst2 hids2 hnb hmkts hne g2 c2
+  obtain ⟨w2, rid⟩ := cr
+  simp only at hr hst2 hids2 hnb hmkts hne g2 c2 ⊢
+  have hr2 : HasOrder w2 rid := (hasOrder_iff w2 rid).mpr hr
+  have ha2 : HasOrder w2 a := g2.1.hasOrder a ha1
+  have hnewid : ∀ (wf : World), SI w2 wf → ∀ x, ¬ HasOrder w x → HasOrder wf x → x = rid := by
+    intro wf hs x hx hxf
+    rw [hasOrder_iff, hs, hids2, s1] at hxf
+    rcases List.mem_append.mp hxf with h | h
+    · exact absurd ((hasOrder_iff w x).mpr h) hx
+    · exact List.mem_singleton.mp h
+  generalize (w2.order! rid).sim.place p.marketVersion (w2.client! p.client).bpe (w2.client! ((w2.order! rid).client.getD 0)).fullMatch book.view
+    ((runnerOf book (w2.order! rid).sel (w2.order! rid).hc).getD { sel := (w2.order! rid).sel }).view false none w2.betId = pr
+  have s3 := si_modifyOrder w2 rid (fun x => { x with sim := pr.1 }) (fun _ h => h)
+  have e3 := same_modifyOrder w2 rid (fun x => { x with sim := pr.1 }) (fun _ h => h) ⟨rfl, rfl⟩ rid
+  have c3 : CC (w2.modifyOrder rid (fun x => { x with sim := pr.1 })) rid = (some c, none) :=
+    (cc_modifyOrder w2 rid (fun x => { x with sim := pr.1 }) (fun _ h => h) ⟨rfl, rfl⟩ rid).trans c2
+  have hr3 := hasOrder_modify w2 rid rid (fun x => { x with sim := pr.1 }) hr2 (fun _ h => h)
+  have ha3 := hasOrder_modify w2 a rid (fun x => { x with sim := pr.1 }) ha2 (fun _ h => h)
+  have hm3 : (w2.modifyOrder rid (fun x => { x with sim := pr.1 })).markets = w1.markets := hmkts
+  generalize w2.modifyOrder rid (fun x => { x with sim := pr.1 }) = w3 at s3 e3 hr3 ha3 hm3 c3
+  have hst3 : St w3 rid = none := by unfold St; rw [e3.1]; exact hst2
+  cases pr.2.status with
+  | success =>
+    simp only
+    have s4 : SI w3 ((w3.modifyOrder rid (fun x => { x with placedAt := some w3.clock, betId := pr.2.betId })).emit (.orderEvent rid)) :=
+      (si_modifyOrder w3 rid (fun x => { x with placedAt := some w3.clock, betId := pr.2.betId }) (fun _ h => h)).trans
+        (SI.of_eq (w := w3.modifyOrder rid (fun x => { x with placedAt := some w3.clock, betId := pr.2.betId })) rfl)
+    have e4 : Same rid w3 ((w3.modifyOrder rid (fun x => { x with placedAt := some w3.clock, betId := pr.2.betId })).emit (.orderEvent rid)) :=
+      same_trans (same_modifyOrder w3 rid (fun x => { x with placedAt := some w3.clock, betId := pr.2.betId }) (fun _ h => h) ⟨rfl, rfl⟩ rid) (same_of_orders rfl)
+    have hm4 : ((w3.modifyOrder rid (fun x => { x with placedAt := some w3.clock, betId := pr.2.betId })).emit (.orderEvent rid)).markets = w1.markets := hm3
+    generalize (w3.modifyOrder rid (fun x => { x with placedAt := some w3.clock, betId := pr.2.betId })).emit (.orderEvent rid) = w4 at s4 e4 hm4
+    have hr4 : HasOrder w4 rid := (s4.hasOrder rid).mpr hr3
+    have hst4 : (w4.order! rid).status = none := by have := hst3; unfold St at this; rw [e4.1]; exact this
+    have hnb4 : rid ∉ (w4.market! p.market).blotter := by rw [Inv.market!_congr w4 w1 hm4]; exact hnb p.market
+    have hcl : o.client.getD ((w4.clients.head?.map (·.id)).getD 0) = c := by rw [hoc]; rfl
+    rw [hcl]
+    have e5 := (place_noexec_files_under_txn_client w4 { market := p.market, client := c } rid none hr4 hnb4 hst4).1
+    have s5 := si_txnPlace_noexec w4 { market := p.market, client := c } rid none
+    generalize (w4.txnPlace { market := p.market, client := c } rid none false false).1 = w5 at e5 s5
+    have hr5 : HasOrder w5 rid := (s5.hasOrder rid).mpr hr4
+    have sall : SI w2 ((w5.orderExecutable rid).tradeExit o.trade) :=
+      (((s3.trans s4).trans s5).trans (si_orderExecutable w5 rid)).trans (si_tradeExit _ _)
+    intro x hx hxf
+    have := hnewid _ sall x hx hxf
+    subst this
+    left
+    rw [cc_of_orders (tradeExit_orders _ _) x, cc_orderExecutable w5 x hr5 x]
+    exact e5
+  | failure =>
+    have s4 := si_orderExecutionComplete w3 rid
+    have c4 : CC (w3.orderExecutionComplete rid) rid = (some c, none) := (cc_orderExecutionComplete w3 rid hr3 rid).trans c3
+    have hr4 : HasOrder (w3.orderExecutionComplete rid) rid := (s4.hasOrder rid).mpr hr3
+    have ha4 : HasOrder (w3.orderExecutionComplete rid) a := (s4.hasOrder a).mpr ha3
+    generalize w3.orderExecutionComplete rid = w4 at s4 c4 hr4 ha4
+    have sall : SI w2 ((w4.orderExecutable a).tradeExit o.trade) :=
+      ((s3.trans s4).trans (si_orderExecutable w4 a)).trans (si_tradeExit _ _)
+    intro x hx hxf
+    have := hnewid _ sall x hx hxf
+    subst this
+    right
+    rw [cc_of_orders (tradeExit_orders _ _) x, cc_orderExecutable w4 a ha4 x]
+    exact c4
+
+
+
+open Flumine.Settle Flumine.Strand in
+/-- ... and so for one step of `execute_replace` (cancel half, then the place half if the cancel succeeded): every order the step
+    creates carries the client of the order the step is about -/
+theorem replace_step_files_under_the_client_of_the_replaced_order (p : Package) (acc : World × Nat) (pr : Nat × Option Rat)
+    (ha : HasOrder acc.1 pr.1) (hI : Inv.Inv acc.1) (c : Nat) (hc : (acc.1.order! pr.1).client = some c) :
+    ∀ x, ¬ HasOrder acc.1 x → HasOrder (replaceStep p acc pr).1 x →
+      CC (replaceStep p acc pr).1 x = (some c, some c) ∨ CC (replaceStep p acc pr).1 x = (some c, none) := by
+  obtain ⟨w, failed⟩ := acc
+  obtain ⟨a, newPrice⟩ := pr
+  unfold replaceStep
+  simp only
+  simp only at ha hI hc
+  have k1 := si_tradeEnter w (w.order! a).trade
+  have g1 := good_tradeEnter w (w.order! a).trade
+  have c1 : CC (w.tradeEnter (w.order! a).trade) a = CC w a := cc_of_orders (tradeEnter_orders _ _) a
+  generalize w.tradeEnter (w.order! a).trade = w1 at k1 g1 c1
+  generalize (w.order! a).sim.cancel (((w1.market! p.market).book).getD {}).status
+    (if (w.order! a).ud.hasReduction then (w.order! a).ud.sizeReduction else none) = cr
+  have k2 := k1.trans (si_modifyOrder w1 a (fun o => { o with sim := cr.1, cancelResponses := o.cancelResponses + 1 }) (fun _ h => h))
+  have g2 := g1.trans (good_modifyOrder w1 a (fun o => { o with sim := cr.1, cancelResponses := o.cancelResponses + 1 }) (fun _ => rfl))
+  have c2 : CC (w1.modifyOrder a (fun o => { o with sim := cr.1, cancelResponses := o.cancelResponses + 1 })) a = CC w a :=
+    (cc_modifyOrder w1 a (fun o => { o with sim := cr.1, cancelResponses := o.cancelResponses + 1 }) (fun _ h => h) ⟨rfl, rfl⟩ a).trans c1
+  generalize w1.modifyOrder a (fun o => { o with sim := cr.1, cancelResponses := o.cancelResponses + 1 }) = w2 at k2 g2 c2
+  have hc2 : (w2.order! a).client = some c := by
+    have := congrArg Prod.fst c2; unfold CC at this; simp only at this; rw [this]; exact hc
+  cases cr.2.status with
+  | failure =>
+    intro x hx hx'
+    exact absurd ((((k2.trans (si_orderExecutable w2 a)).trans (si_tradeExit _ _)).hasOrder x).mp hx') hx
+  | success =>
+    intro x hx hx'
+    exact replacement_filed_under_the_client_of_the_replaced_order p w2 _ a _ newPrice _ failed (g2.1.hasOrder a ha) (g2.2 hI) c hc hc2 x
+      (fun h => hx ((k2.hasOrder x).mp h)) hx'
+
+/-- non-vacuity: two clients, an order placed in a transaction of client 1 (not the default client), replaced one update
+    later; the replacement (order 1) belongs to client 1 and is filed under client 1 -/
+def nvClBook (pt : Int) : Book := { pt := pt, activeRunners := 2, runners := [{ sel := 1, atb := [⟨3, 10⟩], atl := [⟨4, 10⟩] }, { sel := 2 }] }
+def nvClOrder : Order := { id := 0, trade := 0, strategy := 0, market := 1, sel := 1, sim := { side := .back, kind := .limit, price := 5, size := 4 } }
+def nvClWorld : World := Inv.runUpdates { clients := [{ id := 0 }, { id := 1 }], strategies := [{ id := 0, streams := [0] }] }
+  [(1, nvClBook 1000, fun _ => [.batchBegin 1, .create nvClOrder (some { id := 0, strategy := 0, market := 1, sel := 1 }), .place (.byId 0) none false, .batchEnd]),
+   (1, nvClBook 2000, fun _ => [.replace (.byId 0) 6 none false]),
+   (1, nvClBook 3000, fun _ => [])]
+example : (nvClWorld.orders.map fun o => (o.id, o.status, o.client, o.blotterClient, o.inBlotter)) =
+    [(0, some .executionComplete, some 1, some 1, true), (1, some .executable, some 1, some 1, true)] := by decide +kernel
+
+end ClientViews
 
 end Flumine.C15
